@@ -25,7 +25,7 @@ fn junk_str(rng: &mut Rng, sc: &Sc) -> String {
     match rng.below(12) {
         0 => String::new(),
         1 => "abc".into(),
-        2 => "x".repeat(rng.range(1, 300) as usize),
+        2 => "x".repeat(if rng.chance(1, 6) { *rng.pick(&[65_535usize, 65_536, 70_000, 200_000]) } else { rng.range(1, 300) as usize }),
         3 => sc.users[0].to_uppercase(),
         4 => addr20("cosmos", "stranger"),
         5 => sc.users[0][..sc.users[0].len() - 1].to_string(),
@@ -235,7 +235,8 @@ pub fn next(rng: &mut Rng, sc: &Sc, o: &Obs) -> Vec<Op> {
                 3 => json!({"batches": {"start_after": if rng.chance(1, 2) { json!(if rng.chance(1, 5) { u64::MAX } else { rng.below(o.pending.id + 3) }) } else { Value::Null }, "limit": *rng.pick(&[json!(null), json!(0), json!(1), json!(u32::MAX)]), "status": *rng.pick(&[json!(null), json!("Pending"), json!("Submitted"), json!("Received"), json!("bogus")])}}),
                 4 => json!({"batches_by_ids": {"ids": [0, 1, rng.below(10), u64::MAX]}}),
                 5 => json!({"pending_batch": {}}),
-                6 => json!({"unstake_requests": {"user": if rng.chance(1, 2) { sc.users[0].clone() } else { junk_str(rng, sc) }}}),
+                // (any client can put any string here: also a very long one)
+                6 => json!({"unstake_requests": {"user": match rng.below(5) { 0 | 1 => sc.users[0].clone(), 2 => "a".repeat(*rng.pick(&[255usize, 256, 65_535, 65_536, 70_000])), _ => junk_str(rng, sc) }}}),
                 7 => json!({"all_unstake_requests": {"start_after": if rng.chance(1, 2) { json!(*rng.pick(&[0u64, 1, 2, 3, 4, u64::MAX, u64::MAX - 1])) } else { Value::Null }, "limit": *rng.pick(&[json!(null), json!(0), json!(2), json!(u32::MAX)])}}),
                 8 => json!({"all_unstake_requests_v2": {"start_after": if rng.chance(1, 2) { json!(*rng.pick(&[0u64, 1, 2, 3, 4, u64::MAX, u64::MAX - 1])) } else { Value::Null }, "limit": *rng.pick(&[json!(null), json!(0), json!(2), json!(u32::MAX)])}}),
                 9 => json!({"ibc_queue": {"start_after": if rng.chance(1, 2) { json!(if rng.chance(1, 5) { u64::MAX } else { rng.below(50) }) } else { Value::Null }, "limit": *rng.pick(&[json!(null), json!(0), json!(3), json!(u32::MAX)])}}),
